@@ -47,6 +47,20 @@ def tree_batches(ctx, batches, how):
 
 
 LIMIT2 = re.compile(r"LIMIT (\d+), (\d+)")
+# the keywords the printer writes (never stored in the tree): their letter case must not matter
+KEYWORDS = ("SELECT DISTINCT FROM WHERE GROUP BY HAVING ORDER LIMIT OFFSET UNION ALL EXCEPT INTERSECT MINUS WITH AS ON JOIN INNER LEFT RIGHT FULL OUTER CROSS SEMI "
+            "LATERAL VIEW SORT DISTRIBUTE CLUSTER GROUPING SETS CUBE ROLLUP ASC DESC NULLS FIRST LAST AND OR XOR NOT IN IS LIKE RLIKE REGEXP BETWEEN EXISTS CASE WHEN THEN ELSE END "
+            "OVER PARTITION ROWS PRECEDING FOLLOWING UNBOUNDED ROW INSERT INTO OVERWRITE IGNORE TABLE VALUES UPDATE SET DELETE CREATE IF ALTER ADD DROP COLUMN CHANGE MODIFY "
+            "RENAME TO TRUNCATE ANALYZE MSCK REPAIR USE SHOW DATABASES TABLES COLUMNS PRIMARY UNIQUE KEY FULLTEXT CONSTRAINT FOREIGN REFERENCES DEFAULT COMMENT "
+            "AUTO_INCREMENT UNSIGNED ZEROFILL CHARACTER COLLATE GENERATED ALWAYS STORED VIRTUAL ENGINE CHARSET ROW_FORMAT PARTITIONED STORED LOCATION TBLPROPERTIES DIV MOD "
+            "CAST EXTRACT SIGNED COMPUTE STATISTICS FOR NOSCAN CACHE METADATA").split()
+KW_RE = re.compile(r"\b(" + "|".join(sorted(set(KEYWORDS), key=len, reverse=True)) + r")\b")
+
+
+def recase(text, f):
+    """apply f to every keyword outside quoted text"""
+    from props import c09
+    return "".join(KW_RE.sub(lambda m: f(m.group(0)), piece) if code else piece for code, piece in c09.segments(text))
 
 
 def spellings(text):
@@ -65,6 +79,9 @@ def spellings(text):
         out.append(("asc-implicit", text.replace(" ASC", "")))
     if "\n" in text and "--" not in text and "#" not in text:
         out.append(("one-line", text.replace("\n", " ")))
+    if "USING" not in text:       # the letter case of a join's USING is stored in the tree (finding F-C09-2)
+        out.append(("keywords-lower", recase(text, str.lower)))
+        out.append(("keywords-capitalised", recase(text, str.capitalize)))
     return out
 
 
